@@ -521,6 +521,52 @@ def t8(ctx):
                   '%s reads %s from its argument, not from the type' % (cname, idname), f.loc)
 
 
+def deciding_probes(ctx, f, label, min_probes, why, is_probe=None):
+    """for every test of f (loop heads aside) exactly one outcome can reach a `return` that may be
+    true; bool flags are followed along the path (cfg.flag_reachable)"""
+    from ..cfg import flag_reachable
+    cfg = cfg_of(f)
+    yes = set()
+    for cn in cfg.nodes:
+        if cn.kind == 'return' and cn.ast is not None and cn.ast.kids:
+            v = const_eval(cn.ast.kids[0])
+            if v is not False:
+                yes.add(cn.idx)
+    ctx.require(yes, '%s: no return that can be true' % label)
+    heads = {w for (v, w) in cfg.back_edges}
+    n = 0
+    for cn in cfg.nodes:
+        if cn.kind != 'cond' or cn.ast is None or cn.idx in heads:
+            continue
+        labs = {lab for (w, lab) in cfg.succ[cn.idx]}
+        if labs != {True, False}:
+            continue
+        # loop machinery (`__begin != __end`, `a != end()`) is a loop test, not a probe
+        if '__begin' in cn.ast.text(4) or '__end' in cn.ast.text(4):
+            continue
+        if any((v, cn.idx) in cfg.back_edges for v in range(len(cfg.nodes))):
+            continue
+        if is_probe is not None and not is_probe(cn.ast):
+            continue
+        n += 1
+        can = {}
+        for lab in (True, False):
+            base, pos = unnegate(cn.ast)
+            env0 = {}
+            if base is not None and base.kind == 'DeclRefExpr' and base.ref and base.ref.get('name'):
+                env0[base.ref['name']] = lab if pos else (not lab)
+            r = flag_reachable(cfg, [w for (w, l2) in cfg.succ[cn.idx] if l2 is lab], env0)
+            can[lab] = bool(r & yes)
+        ctx.check('%s/%s' % (label, cn.ast.text(3)[:48]), can[True] != can[False],
+                  '%s: `%s` decides - one outcome can still answer yes, the other cannot'
+                  % (label, cn.ast.text(3)[:60]),
+                  '%s: `%s` %s: %s'
+                  % (label, cn.ast.text(3)[:60],
+                     'can answer yes on both outcomes' if can[True] else 'can answer yes on neither outcome', why),
+                  cn.ast.loc)
+    ctx.require(n >= min_probes, '%s: only %d probes found' % (label, n))
+
+
 @rule('T1e', floor=10, title='every test of a class recogniser decides: one outcome can still answer "yes", the other cannot')
 def t1e(ctx):
     """The recognisers are conjunctions: a class is a namedtuple / struct sequence when every probe
@@ -528,44 +574,8 @@ def t1e(ctx):
     reach a `return` that may be true.  A probe whose both outcomes can answer "yes" is ignored
     (`fields_ok = true` in the failing branch, a dropped `return false`); a probe whose neither
     outcome can is dead.  Bool flags are followed along the path (cfg.flag_reachable)."""
-    from ..cfg import flag_reachable
     prog = ctx.cxx()
     for impl in ('IsNamedTupleClassImpl', 'IsStructSequenceClassImpl'):
-        f = prog.one(impl)
-        cfg = cfg_of(f)
-        yes = set()
-        for cn in cfg.nodes:
-            if cn.kind == 'return' and cn.ast is not None and cn.ast.kids:
-                v = const_eval(cn.ast.kids[0])
-                if v is not False:
-                    yes.add(cn.idx)
-        ctx.require(yes, '%s: no return that can be true' % impl)
-        heads = {w for (v, w) in cfg.back_edges}
-        n = 0
-        for cn in cfg.nodes:
-            if cn.kind != 'cond' or cn.ast is None or cn.idx in heads:
-                continue
-            labs = {lab for (w, lab) in cfg.succ[cn.idx]}
-            if labs != {True, False}:
-                continue
-            # range-for machinery (`__begin != __end`) is a loop test, not a probe
-            if '__begin' in cn.ast.text(4) or '__end' in cn.ast.text(4):
-                continue
-            n += 1
-            can = {}
-            for lab in (True, False):
-                base, pos = unnegate(cn.ast)
-                env0 = {}
-                if base is not None and base.kind == 'DeclRefExpr' and base.ref and base.ref.get('name'):
-                    env0[base.ref['name']] = lab if pos else (not lab)
-                r = flag_reachable(cfg, [w for (w, l2) in cfg.succ[cn.idx] if l2 is lab], env0)
-                can[lab] = bool(r & yes)
-            ctx.check('%s/%s' % (impl, cn.ast.text(3)[:48]), can[True] != can[False],
-                      '%s: `%s` decides - one outcome can still answer yes, the other cannot'
-                      % (impl, cn.ast.text(3)[:60]),
-                      '%s: `%s` %s: the probe does not take part in the answer, so the engine and the '
-                      'Python twin classify some class differently'
-                      % (impl, cn.ast.text(3)[:60],
-                         'can answer yes on both outcomes' if can[True] else 'can answer yes on neither outcome'),
-                      cn.ast.loc)
-        ctx.require(n >= 4, '%s: only %d probes found' % (impl, n))
+        deciding_probes(ctx, prog.one(impl), impl, 4,
+                        'the probe does not take part in the answer, so the engine and the Python '
+                        'twin classify some class differently')
